@@ -23,13 +23,20 @@ def BlockOpt.size (b : BlockOpt) : Nat := 2 ^ (min b.szx 6 + 4)
 /-- `start`: `self.block_number * self.size` (optiontypes.py:177-188) -/
 def BlockOpt.start (b : BlockOpt) : Nat := b.num * b.size
 
-/-- `is_valid_for_payload_size` (optiontypes.py:194-207). Not BERT: a block with the more flag
+/-- `is_valid_for_payload_size` (optiontypes.py:194-203). Not BERT: a block with the more flag
 carries exactly `size` bytes, the last one at most `size`. BERT (`is_bert`: exponent 7): a block
-with the more flag carries one or more whole KiB (after the fix: not zero), the last one anything. -/
+with the more flag carries a whole number of KiB (0 included), the last one anything. -/
 def BlockOpt.validFor (b : BlockOpt) (payloadSize : Nat) : Bool :=
   if b.szx = 7 then
-    if b.more then decide (0 < payloadSize) && payloadSize % 1024 == 0 else true
+    if b.more then payloadSize % 1024 == 0 else true
   else if b.more then payloadSize == b.size else decide (payloadSize ≤ b.size)
+
+/-- what the CLIENT's assembly of a block-wise response accepts (message.py:491-498
+`_append_response_block`, protocol.py:1213-1225 for the first block): a valid payload size, and
+(a fix) a block with the more flag carries at least one byte -- an empty BERT block "with more to
+come" would not advance the transfer and the same block would be asked for again -/
+def BlockOpt.okFor (b : BlockOpt) (payloadSize : Nat) : Bool :=
+  b.validFor payloadSize && !(b.more && payloadSize == 0)
 
 /-- `reduced_to(maximum_exponent)` (optiontypes.py:209-226):
 `block_number << (min(szx, 6) - maximum_exponent)`. The code's special case "exponent 7 capped
